@@ -3,6 +3,7 @@ package coder
 import (
 	"encoding/binary"
 	"errors"
+	stdmath "math"
 
 	"github.com/plgd-dev/go-coap/v3/message"
 	"github.com/plgd-dev/go-coap/v3/message/codes"
@@ -193,7 +194,13 @@ func (c *Coder) DecodeHeader(data []byte, h *MessageHeader) (int, error) {
 		opLen = MessageLength15Base + int(extLen)
 	}
 
-	h.MessageLength = hdrOff + 1 + uint32(tkl) + math.CastTo[uint32](opLen)
+	// The declared length is up to 65805 + 2^32-1: compute it in 64 bits, so that an oversized
+	// frame is refused instead of wrapping around to a small MessageLength.
+	messageLength := uint64(hdrOff) + 1 + uint64(tkl) + uint64(opLen)
+	if messageLength > stdmath.MaxUint32 {
+		return -1, message.ErrInvalidValueLength
+	}
+	h.MessageLength = math.CastTo[uint32](messageLength)
 	if len(data) < 1 {
 		return -1, message.ErrShortRead
 	}
